@@ -177,6 +177,15 @@ def run_case(case, ses):
             return
         raise
     ses.stats.programs += 1
+    ses.stats.obligations += 1
+    ses.stats.kinds['interface-injective'] = ses.stats.kinds.get('interface-injective', 0) + 1
+    if cm.collisions:
+        finding(ses, 'C04:%s:shared-column' % name, 'dro model %s: decisions / rule coefficients that the declaration leaves free to '
+                'differ between events are one column of the compiled program (read back through get()): %s - the recourse is '
+                'restricted, the reformulation conservative' % (name, cm.collisions[:3]), dict(name=name, collisions=cm.collisions),
+                'rsv.props.c04:replay')
+        return
+    ses.stats.discharged += 1
     cp = cm.cp
     vs = cp.z3vars()
     P = cp.constraints(vs)
@@ -273,6 +282,10 @@ def replay(data, verbose=False):
     name = data['name']
     with quiet():
         cm = CompiledDRO(lookup(name))
+    if 'collisions' in data:
+        if verbose:
+            print('dro model %s: names sharing a column of the real compiled program: %s' % (name, cm.collisions))
+        return bool(cm.collisions)
     if data.get('conic'):
         # the point is feasible for every row under its worst case over the TRUE set and its worst-case objective beats the
         # optimum the real solve() reports (re-solved here)
